@@ -11,6 +11,7 @@ import (
 	_ "verif/harness/c05"
 	_ "verif/harness/c06"
 	_ "verif/harness/c07"
+	_ "verif/harness/c08"
 	_ "verif/harness/c10"
 	_ "verif/harness/c14"
 	_ "verif/harness/c15"
